@@ -30,7 +30,47 @@ func newMailer(s *Stack) authboss.Mailer {
 		})
 		return defaults.NewSMTPMailer("smtp.site.test:25", nil)
 	}
+	if s.Cfg.LogMailer {
+		return defaults.NewLogMailer(logMailSink{s})
+	}
 	return mailer{s}
+}
+
+// logMailSink is the io.Writer behind the shipped defaults.LogMailer. Every Write is a scheduling
+// point; the world's outbox is re-derived from the stream: a mail is what lies between two
+// terminating MIME boundaries, addressed to whatever its first line says. A piece that does not
+// start with a To header (a torn mail) is kept with no recipient.
+type logMailSink struct{ s *Stack }
+
+const logMailEnd = "--===============284fad24nao8f4na284f2n4==--\r\n"
+
+func (l logMailSink) Write(p []byte) (int, error) {
+	l.s.point("logmailer.Write")
+	defer l.s.guard()()
+	w := l.s.W
+	w.MailStream += string(p)
+	w.Mails = ParseMailStream(w.MailStream)
+	return len(p), nil
+}
+
+// ParseMailStream splits a LogMailer stream into complete mails.
+func ParseMailStream(stream string) []Mail {
+	var out []Mail
+	for {
+		i := strings.Index(stream, logMailEnd)
+		if i < 0 {
+			return out
+		}
+		piece := stream[:i+len(logMailEnd)]
+		stream = stream[i+len(logMailEnd):]
+		m := Mail{Text: piece}
+		if strings.HasPrefix(piece, "To: ") {
+			if j := strings.Index(piece, "\r\n"); j > 0 {
+				m.To = strings.Split(piece[4:j], ", ")
+			}
+		}
+		out = append(out, m)
+	}
 }
 
 // Req describes one HTTP request by a browser.
@@ -130,7 +170,7 @@ func (r *recorder) Write(b []byte) (int, error) {
 // observation. The virtual clock and crypto/rand are pointed at w first.
 func (s *Stack) Do(w *World, rq Req) *Obs {
 	s.W = w
-	w.Mails, w.SMS, w.Log = nil, nil, nil
+	w.Mails, w.SMS, w.Log, w.MailStream = nil, nil, nil, ""
 	vtime.Set(w.Now)
 	rand.Reader = s.rng
 	s.seamCalls, s.faultFired, s.stateWrites, s.UsedTokens = nil, nil, 0, nil
